@@ -570,8 +570,88 @@ func c14Protocol(c *fw.Case) {
 			dead = true
 		}
 	}
+	// a chunk server in front of the session (what `desync chunk-server -s ssh://...` is): the answer to one request
+	// is still being written while the session already serves the next one. The overlap is played out in the one
+	// order that matters: request B runs entirely inside the first Write of the response to request A, at which point
+	// the session is free again (RemoteSSH has put it back into its pool).
+	var present []int
+	for k := range ids {
+		if content[k] == 0 {
+			present = append(present, k)
+		}
+	}
+	if !dead && len(present) > 0 && c.ChanceAdded(1, 2, "proto.overlap") {
+		h := desync.NewHTTPHandler(sessionStore{p}, false, false, desync.Converters{desync.Compressor{}}, "")
+		a := present[c.Draw(len(present), "overlap.a")]
+		b := present[c.Draw(len(present), "overlap.b")]
+		get := func(k int, w http.ResponseWriter) {
+			sid := ids[k].String()
+			h.ServeHTTP(w, httptest.NewRequest("GET", "/"+sid[:4]+"/"+sid+".cacnk", nil))
+		}
+		wb := &nestingWriter{header: http.Header{}}
+		wa := &nestingWriter{header: http.Header{}, inside: func() { get(b, wb) }}
+		if catch(c, "HTTPHandler over a protocol session", func() { get(a, wa) }) {
+			return
+		}
+		c.SubEval(1)
+		for _, x := range []struct {
+			k int
+			w *nestingWriter
+		}{{a, wa}, {b, wb}} {
+			if x.w.status != 200 {
+				if !firedFlag.Load() {
+					c.Violate("present-chunk-failed", "protocol/overlap", "GET of a present chunk through a chunk server in front of a healthy session: status %d", x.w.status)
+					return
+				}
+				continue
+			}
+			data, derr := desync.Decompress(nil, x.w.body)
+			if derr != nil || !bytes.Equal(data, datas[x.k]) {
+				c.Violate("data-altered", "protocol/overlap", "two overlapping GETs (chunks %d and %d) through a chunk server in front of one session: the 200 response for chunk %d is not that chunk (%v)", a, b, x.k, derr)
+				return
+			}
+		}
+	}
 	c.NonTrivial()
 	c.Outcome("ok")
+}
+
+// sessionStore is a Store on one protocol session; callers are sequential.
+type sessionStore struct{ p *desync.Protocol }
+
+func (s sessionStore) GetChunk(id desync.ChunkID) (*desync.Chunk, error) { return s.p.RequestChunk(id) }
+func (s sessionStore) HasChunk(id desync.ChunkID) (bool, error) {
+	_, err := s.p.RequestChunk(id)
+	return err == nil, err
+}
+func (s sessionStore) Close() error   { return nil }
+func (s sessionStore) String() string { return "protocol-session" }
+
+// nestingWriter is a ResponseWriter that runs `inside` after it has been handed the first slice and before it takes the
+// bytes out of it, as a connection does that is still busy with the previous packet.
+type nestingWriter struct {
+	header http.Header
+	status int
+	body   []byte
+	inside func()
+}
+
+func (w *nestingWriter) Header() http.Header { return w.header }
+func (w *nestingWriter) WriteHeader(code int) {
+	if w.status == 0 {
+		w.status = code
+	}
+}
+func (w *nestingWriter) Write(p []byte) (int, error) {
+	if w.status == 0 {
+		w.status = 200
+	}
+	if f := w.inside; f != nil {
+		w.inside = nil
+		f()
+	}
+	w.body = append(w.body, p...)
+	return len(p), nil
 }
 
 func TestC14(t *testing.T) {
